@@ -20,6 +20,6 @@ func main() {
 	r.Assume("an invalid and a valid block sent back-to-back by the same peer reach the query worker in either order (one goroutine per message): there the ban is not required and a later failure is not counted against the client")
 	r.Assume("the client hands received messages to its query workers asynchronously (one goroutine per message): a block sent as a bystander to one request can be consumed as the answer to the NEXT request to that peer. Bystander blocks are therefore drawn from blocks no call ever requests; and a failing call may have spent one try on a worker whose peer the client had just disconnected, so the retry-budget rule allows one unobserved try per peer the client had reason to drop")
 	r.Assume("simulated peers answer inline (well inside the 2 s worker timeout); delayed answers, which a client may legitimately never look at, are not generated")
-	n := r.Pick(16, 250)
+	n := r.Pick(16, 2000)
 	l2.Main(r, n, 300*time.Second, r.Pick(40, 300), c06.Scenario)
 }
